@@ -25,6 +25,7 @@ PROOF_FAIL = (
     "constructed value may fail to meet its declared type invariant",
     "possible truncation",
     "unable to prove",
+    "requires not satisfied",
     "closure precondition",
     "the value may be out of range",
 )
